@@ -21,6 +21,7 @@ def run(ctx):
     else:
         cfgs = [
             (dict(R=3, B=1, C=2, Cap=2, F=1, kinds=both), 80, 200),
+            (dict(R=4, B=2, C=2, Cap=2, F=1, kinds=["kill"]), 60, 150),     # two records per worker: faults BETWEEN results
             (dict(R=2, B=1, C=1, Cap=1, F=1, kinds=both), 10, 30),
         ]
     for k, nw, ns in cfgs:
